@@ -197,6 +197,13 @@ class Runner:
 				d[path] = f'vf.di_universe.{f}' if by_name else self.u.FACTORIES[f][0]
 				mc.map[s] = MEntry(f, True)
 			rc = self.LazyDI.instantiate(d)
+			if len(defs) % 2 == 1:
+				# a second container built from the very same definitions object: it starts with the same definitions and is otherwise independent
+				twin = MContainer()
+				twin.map = {s_: MEntry(e.factory, True) for s_, e in mc.map.items()}
+				self.real.append(self.LazyDI.instantiate(d))
+				self.model.append(twin)
+				self.flags['containers_from_one_definitions_object'] = True
 		else:
 			rc = self.DI()
 			for s, f, _ in map(tuple, defs):
